@@ -119,6 +119,16 @@ pub fn c05_instances(tier: Tier) -> Vec<Instance> {
                 i.tick_budget = if imp == Impl::Tokio && seq.len() <= 2 { if to { 3 } else { 1 } } else { 0 };
                 i.allow_timeout = to;
                 i.storm_budget = if seq.len() <= 2 { 1 } else { 0 };
+                // the transport's coding style is not the connection's business: one that initialises the whole buffer it
+                // is handed before it reads into it (TLS streams, std::io bridges) - pairs of frames, every partition
+                if imp == Impl::Tokio && seq.len() <= 2 {
+                    let mut v = i.clone();
+                    v.label = format!("{}#init-unfilled", i.label);
+                    v.init_unfilled = true;
+                    v.tick_budget = 0;
+                    v.storm_budget = 0;
+                    out.push(v);
+                }
                 out.push(i);
             }
         }
@@ -722,6 +732,21 @@ pub fn c09_instances(tier: Tier) -> Vec<Instance> {
                     i.chunks = Chunks::WholeOrBytes;
                     i.allow_eof = false;
                     out.push(i);
+                }
+            }
+            // ... every TINY sub-type among them (a Close, a version request, ...), with any request id
+            for subt in 0..=31u8 {
+                for reqi in [0u8, 1] {
+                    let mut b = bytes::BytesMut::from(&f_tiny(c, reqi, subt)[..]);
+                    let Ok(Ok(Some(p))) = crate::report::guard(|| Codec::new(mode_of(c)).decode(&mut b)) else { continue };
+                    for v in [9u8, 8, 0] {
+                        let mut i = Instance::new(&format!("after-write#{cname}#TINY-subt{subt}-reqi{reqi}-v{v}#{}", imp_name(imp)), imp, c, vec![f_small(c), f_ver(c, v), f_small(c)]);
+                        i.verify_version = true;
+                        i.preamble = vec![p.clone()];
+                        i.chunks = Chunks::Boundary;
+                        i.allow_eof = false;
+                        out.push(i);
+                    }
                 }
             }
             // a VER frame longer than the 20 bytes its fields need (what a later protocol revision would send):
